@@ -157,7 +157,8 @@ theorem bundleLoopU_frames {m : Bytes} : ∀ (cs : List Bytes) (p fuel : Nat) (x
       have := drop_add_of_drop (x := be32 (UInt32.ofNat c.length) ++ c)
         (y := frames cs ++ 0 :: 0 :: 0 :: 0 :: x) (by rw [hd]; simp [frames])
       simpa [be32_length] using this
-    simp only [bundleLoopU, hrd, hv, ne_eq, hc, not_false_eq_true, if_true]
+    have hnw : ¬ (p + 4 + c.length > 4294967295) := by omega
+    simp only [bundleLoopU, hrd, hv, ne_eq, hc, not_false_eq_true, if_true, hnw, and_false, if_false]
     rw [u32_id (n := 4 + c.length) (by omega), u32_id (by omega),
       ih (p + (4 + c.length)) f x hd' (fun c hc => hne c (List.mem_cons_of_mem _ hc)) (by omega)
         (by simp at hf; omega)]
@@ -214,7 +215,9 @@ theorem bundleLoop_frames {r : Ring} {msg : Bytes} (h : r.d0 ++ r.d1 = msg) :
       simpa [be32_length] using this
     have hin : ¬ p > r.total := by omega
     have hfit : ¬ c.length > r.total - p := by omega
-    simp only [bundleLoop, hin, hrd, hv, hfit, ne_eq, hc, not_false_eq_true, if_true, if_false]
+    have hnw : ¬ (p + 4 + c.length > 4294967295) := by omega
+    simp only [bundleLoop, hin, hrd, hv, hfit, ne_eq, hc, not_false_eq_true, if_true, if_false, hnw,
+      and_false, or_self]
     rw [u32_id (n := 4 + c.length) (by omega), u32_id (by omega),
       ih (p + (4 + c.length)) f k hd' (fun c hc => hne c (List.mem_cons_of_mem _ hc)) (by omega)
         (by simp at hf; omega) (by omega)]
